@@ -850,6 +850,8 @@ func RunC05(cfg Config) *report.Report {
 		r.AddFailure(f)
 	}
 	r.DistinctNontrivial = len(distinct)
+	c05ReusedEnv(r)
+	r.Space += "; plus 2 scenarios of overloads registered one after the other (polymorphic first, then exactly matching monomorphic ones), each program compiled after every step through a typing environment that has been used before and through a fresh one"
 	r.Exhaustive = false
 	r.Notes = append(r.Notes,
 		fmt.Sprintf("run as %d single-threaded worker processes: yae's type-variable counter is process-wide and unsynchronised, concurrent type checking in one process could give spurious results", shards),
